@@ -275,6 +275,25 @@ def run_case(case, seed):
             if calls[0] > iters or calls[0] < 1:
                 vio.append({"key": f"C17|hutchinson-cap|tol={tol}", "what": f"{calls[0]} block products with max_iters={iters}", "detail": {"calls": calls[0], "max_iters": iters}})
             outcome = f"cap:{calls[0]}"
+        elif kind == "KEYFORM":
+            # a NumPy integer is an integer key: same stream as the Python int of the same value
+            _, routine = case
+            mats = _ops(seed)
+            fns = {"hutch": lambda key: hutchinson_diag_estimate(ops.Dense(mats["G"].copy()), k=0, tol=0.5, max_iters=2, key=key)[0],
+                   "lanczos": lambda key: lanczos(cola.PSD(ops.Dense(mats["S"].copy())), max_iters=4, tol=1e-10, key=key)[:2],
+                   "power_iteration": lambda key: power_iteration(cola.PSD(ops.Dense(mats["S"].copy())), tol=1e-8, max_iter=50, key=key)[:2],
+                   "NystromPrecond": lambda key: NystromPrecond(cola.PSD(ops.Dense(mats["S"].copy())), rank=2, key=key)}
+            ntr, outcome = 0, "keyform"
+            ref_d = digest(fns[routine](7))
+            for form in (np.int64(7), np.int32(7), np.uint8(7)):
+                ntr += 1
+                try:
+                    d = digest(fns[routine](form))
+                    if d != ref_d:
+                        vio.append({"key": f"C17|key-form|different-stream|{routine}", "what": f"{routine}: key={type(form).__name__}(7) gives a different result than key=7", "detail": {}})
+                except Exception as e:
+                    vio.append({"key": f"C17|key-form|exc:{type(e).__name__}|{routine}", "what": f"{routine}: key={type(form).__name__}(7) raises {type(e).__name__}", "detail": {"msg": str(e)[:200]}})
+                    break
         elif kind == "PROBES":
             # several iterations: record every probe block the estimator multiplies with.  The sampling error it claims (var / (i * bs))
             # assumes i * bs INDEPENDENT probes: no block may be drawn twice, and the estimate must be the bilinear form averaged over
@@ -342,6 +361,8 @@ def cases(tier, seed):
         for iters in (1, 2, 5, 50):
             for rand in ("normal", "rademacher"):
                 out.append(["CAP", tol, iters, rand])
+    for routine in ("hutch", "lanczos", "power_iteration", "NystromPrecond"):
+        out.append(["KEYFORM", routine])
     for n in (6, 12):
         for k in (0, 2, -1):
             for rand in ("normal", "rademacher"):
